@@ -18,8 +18,8 @@ TB = ('Trusted: Lean 4.33 kernel; axioms propext/Quot.sound/Classical.choice '
 P = {
  'C01': dict(
   cat='proof', tech='Lean 4 theorems (stage inverses) + differential correspondence + round-trip campaign',
-  text='Lean theorems for the invertible stages of the compressor (RLE1 round trip, MTF/zero-run inverse, canonical prefix code decode∘encode) for all inputs; the hand models are tied to the C functions by in-process differential runs, and the whole pipeline by a process-level round-trip campaign (lbzip2→lbzip2 and lbzip2→libbz2) over levels, --sequential, worker counts and perturbed schedules.',
-  note=TB + 'Partial: divbwt (block sort), the EM clustering and package_merge are exercised per run, not proved; thread timing is perturbed, not enumerated.',
+  text='Lean theorems for every invertible stage of the compressor for all inputs (RLE1 round trip and greedy packing of collect(); do_mtf = reference MTF/zero-run coding and its inverse; canonical code assignment and decode∘encode; transmit(): the strict reference parser recovers every field, bit count = 8·out_expect_len); on the decoder side retrieve/decode/emit are proved equal to the reference block decoder; the hand models are tied to the C functions by in-process differential runs, and the whole pipeline by a process-level round-trip campaign (lbzip2→lbzip2 and lbzip2→libbz2) over levels, --sequential, worker counts and perturbed schedules.',
+  note=TB + 'Partial: the forward block sort divbwt, the EM clustering and package_merge are exercised per run, not proved, and the stage theorems are not composed into one whole-file round-trip theorem; thread timing is perturbed, not enumerated.',
   ref='6 C01'),
  'C02': dict(
   cat='proof', tech='Lean 4 arithmetic theorems over translated constants + strict inspector on every real output',
@@ -28,7 +28,7 @@ P = {
   ref='6 C02'),
  'C03': dict(
   cat='proof', tech='Lean 4 inductive invariants over a transition-system model of the compression scheduler (guards translated from source) + determinism campaign',
-  text='SchedC is a labelled transition system whose guards, priority order, thresholds and capacities are regenerated from compress.c/process.c; theorems hold for every worker count and every interleaving (sink order = next-chain from (0,0), output_eq; xread fills whole chunks under any read fragmentation; xwrite writes everything under any short-write pattern). The real binary is compared byte-for-byte against its -n1 run under random worker counts, perturbation seeds and plumbing (pipe, fragmented pipe, file stdin/stdout, FILE operand).',
+  text='SchedC is a labelled transition system whose guards, priority order, thresholds and capacities are regenerated from compress.c/process.c; theorems hold for every worker count and every interleaving in both modes (sink order = next-chain from (0,0); output_eq: two terminated runs with any worker counts, slot totals and schedules write the same block sequence = the canonical sequential one; xread fills whole chunks under any read fragmentation; xwrite writes everything under any short-write pattern). The real binary is compared byte-for-byte against its -n1 run under random worker counts, perturbation seeds and plumbing (pipe, fragmented pipe, file stdin/stdout, FILE operand).',
   note=TB + 'Partial: the do_* bodies are hand-modelled (tie = hook-trace acceptance + output comparison); determinism of the per-block C functions is observed, not proved.',
   ref='6 C03'),
  'C04': dict(
@@ -38,12 +38,12 @@ P = {
   ref='6 C04'),
  'C05': dict(
   cat='proof', tech='Lean 4 theorems for decoder pieces over translated tables + malformed-stream differential campaign against a strict oracle',
-  text='Soundness lemmas of the block decoder over the tables regenerated from decode.c/parse.c (windowed delta decoding = bit-by-bit reference with every intermediate length in 1..20; make_tree Kraft test and lookup; sliding-list MTF = list MTF; run accumulation; emitter = un-RLE with missing count rejected), tied in-process to the C functions; per run a field-aimed malformed-stream campaign: lbzip2 -d exits 0 ⇒ the strict oracle accepts and the bytes equal the reference decoding.',
-  note=TB + 'Partial: the end-to-end equivalence Model.expand = Spec.decodeFile is not proved as one theorem; IBWT is tied by observation. Oracle = tools/bzformat.py cross-checked with libbz2 and the Lean Spec.',
+  text='Soundness lemmas of the block decoder over the tables regenerated from decode.c/parse.c (windowed delta decoding = bit-by-bit reference with every intermediate length in 1..20; make_tree Kraft test and lookup; sliding-list MTF = list MTF; run accumulation; emitter = un-RLE with missing count rejected), composed into retrieve_sound (retrieve() OK ⇒ the strict reference parses the same block with the same end position, for every segmentation of the input) and block_decode_sound (retrieve+decode+emit+CRC ⇒ Spec.Bzip2.decodeBlock); tied in-process to the C functions; per run a field-aimed malformed-stream campaign: lbzip2 -d exits 0 ⇒ the strict oracle accepts and the bytes equal the reference decoding.',
+  note=TB + 'Partial: the lift from single blocks to whole files (header parser folded over the input + do_reorder) is not one theorem; the block-level theorems are. Oracle = tools/bzformat.py cross-checked with libbz2 and the Lean Spec.',
   ref='6 C05'),
  'C06': dict(
   cat='proof', tech='Lean 4 completeness lemmas + valid-stream generator campaign against a strict oracle',
-  text='Completeness converses of the C05 lemmas (every in-range delta path is accepted wherever the 6-bit windows fall; selectors up to 32767) and a generator covering every degree of freedom of the format (2..6 random complete tables up to 20-bit codes, arbitrary selector sequences, surplus selectors, zig-zag deltas, randomised blocks, blocks at any bit offset, mixed-level concatenations, trailing non-header data, unused incomplete tables): oracle accepts ⇒ lbzip2 -d exits 0 with the same bytes, for several worker counts.',
+  text='Completeness: retrieve_complete — everything the strict reference accepts is accepted by retrieve() with the same block, for every segmentation (the only other answer is MORE/ERR_EOF when fewer than 32 bits follow); every in-range delta path is accepted wherever the 6-bit windows fall; and a generator covering every degree of freedom of the format (2..6 random complete tables up to 20-bit codes, arbitrary selector sequences, surplus selectors, zig-zag deltas, randomised blocks, blocks at any bit offset, mixed-level concatenations, trailing non-header data, unused incomplete tables): oracle accepts ⇒ lbzip2 -d exits 0 with the same bytes, for several worker counts.',
   note=TB + 'Partial as C05.', ref='6 C06'),
  'C07': dict(
   cat='proof', tech='total Lean decoder models + rejection campaign (every truncation point, FILE operands, timeouts, ASan in thorough)',
@@ -53,12 +53,12 @@ P = {
  'C08': dict(
   cat='proof', tech='Lean 4 index-bound theorems over translated extents + sanitizer runs of all campaigns',
   text='Index arithmetic of the buffer-handling code is proved inside the declared extents taken from Gen (sliding-list rows inside imtf_slide, shift ≤ 20, fast-path refills ≤ 32 words, selector/table extents, canonical lookup stops at k ≤ 20); all in-process harnesses and the whole program run under ASan+UBSan with asserts on over the compress/decompress campaigns.',
-  note=TB + 'Partial by construction: no verified C semantics in this image; divbwt.c is covered by sanitizer runs on sort-adversary inputs only; uninitialised reads via valgrind in the thorough tier. Known finding F5 (stale re-attach) is listed in known_findings.json.',
+  note=TB + 'Partial by construction: no verified C semantics in this image; divbwt.c is covered by sanitizer runs on sort-adversary inputs only; uninitialised reads via valgrind in the thorough tier. The defect F5 (stale re-attach) found this way was repaired.',
   ref='6 C08'),
  'C09': dict(
   cat='proof', tech='Lean 4 split theorems for resumable decoders + scheduler refinement + configuration-matrix campaign',
-  text='emit_split (output identical for every list of output buffer sizes), SchedD output_eq (sink sequence independent of worker count, schedule and granularity) over guards regenerated from expand.c; the real binary is run over input granularities {4..262144} × output granularities {1..900000} × worker counts × perturbation seeds × {stdout, file, -c, -t} and compared with the default configuration and the oracle.',
-  note=TB + 'Partial: retrieve() suspension (NEED) is tied by the granularity campaign (every word split of small streams), not by a theorem.',
+  text='emit_split (output identical for every list of output buffer sizes), retrieve_split (result identical for every segmentation of the input words, fast path = slow path), SchedD output_eq (sink sequence independent of worker count, schedule and granularity) over guards regenerated from expand.c; the real binary is run over input granularities {4..262144} × output granularities {1..900000} × worker counts × perturbation seeds × {stdout, file, -c, -t} and compared with the default configuration and the oracle.',
+  note=TB + 'Partial: header-parser suspension (parse() returning MORE) is tied by the granularity campaign, not by a theorem; pthread semantics assumed.',
   ref='6 C09'),
  'C10': dict(
   cat='proof', tech='Lean 4 safety invariant over the expansion scheduler model with uninterpreted candidate set + planted-magic campaign',
@@ -68,17 +68,17 @@ P = {
  'C11': dict(
   cat='proof', tech='Lean 4 inductive invariants (capacity, conservation, order, progress) for both scheduler models, guards/constants translated from source',
   text='For every worker count, input shape and interleaving of SchedC/SchedD: queue sizes within the pqueue_init/deque_init extents, resource conservation, stream order at the sink, and progress; numeric side conditions discharged on the regenerated constants. Hook assertions (LBZIP2_VERIF_CHECK) and trace acceptance tie the binary to the models; runs under timeouts with perturbation and scripted delays (the F3 deadlock schedule is replayed).',
-  note=TB + 'Partial: pthread/kernel semantics assumed; expansion progress and the unord_q capacity are proved under explicit hypotheses with machine-checked witnesses of the remaining lifecycle gaps (known findings F2/F4/F5).',
+  note=TB + 'Partial: pthread/kernel semantics assumed; expansion deadlock-freedom and unord_q capacity need EMIT_THRESH < total_out (true for every shipped slot formula); termination measure and wake-up discipline are proved for compression only. The lifecycle defects F2-F5 found through these models were repaired (known_findings.json).',
   ref='6 C11'),
  'C12': dict(
   cat='proof', tech='ownership discipline over the scheduler models + ThreadSanitizer campaign',
-  text='Every shared variable is accessed only in transitions holding its monitor (sched/source/sink) in the models; ThreadSanitizer builds of the whole program run the compression, decompression and -cdf campaigns with perturbation seeds as validation of the footprints against the code.',
+  text='race_free / owner_unique / guarded_under_lock / unlocked_phase_private over annotated footprints of every section of SchedC, the copy pipeline and SchedD (incl. input buffers are not freed while a job is attached); ThreadSanitizer builds of the whole program run the compression, decompression and -cdf campaigns with perturbation seeds as validation of the footprints against the code.',
   note=TB + 'Partial: the C memory model is not formalised; TSan sees only executed interleavings.',
   ref='6 C12'),
  'C13': dict(
   cat='proof', tech='Lean 4 memory bound as corollary of slot conservation + allocation accounting by LD_PRELOAD',
-  text='liveBytes ≤ memBound(n) (linear in n) follows from the conservation invariants with allocation sizes from Gen; an LD_PRELOAD allocation shim measures peak live bytes and per-site live counts for inputs ×1/×4/×16 (including million-fold bombs) at several worker counts.',
-  note=TB + 'Partial: RSS vs live bytes slack is measured; known finding F2 (72-byte unord_blk leak per overtaken speculative block) is listed.',
+  text='liveBytes ≤ memBound(n) = n·perWorker for compression and decompression, independent of the input, from the conservation/capacity invariants with slot formulas from Gen; an LD_PRELOAD allocation shim measures peak live bytes and per-site live counts for inputs ×1/×4/×16 (including million-fold bombs) at several worker counts.',
+  note=TB + 'Partial: RSS vs live bytes slack is measured; allocation sizes are parameters of the theorem (the check evaluates the bound with measured sizes).',
   ref='6 C13'),
  'C14': dict(
   cat='proof', tech='Lean 4: KMP automaton proof, whole-table decide +kernel, full correctness theorem of scan(); exhaustive table comparison + differential scan campaign',
